@@ -63,40 +63,54 @@ def prof(**kw):
 
 # exhaustively enumerated profiles (BFS): name -> parameters of Scopes.tla
 PROFILES_QUICK = {
-    "blocks":   prof(K=6, depth=3, loop=True, init=True, nv=2),
-    "class":    prof(K=5, depth=3, cls=True, late=True, nv=2, init=True),
-    "lambda":   prof(K=5, depth=3, lam=True, init=True, nv=2),
+    "blocks":   prof(K=5, depth=3, loop=True, nv=2),
+    "init":     prof(K=4, depth=3, loop=True, init=True, nv=2),
+    "class":    prof(K=4, depth=3, cls=True, late=True, nv=2, init=True),
+    "lambda":   prof(K=4, depth=3, lam=True, init=True, nv=1),
     "ns":       prof(K=5, depth=3, ns=True, qual=True, nv=2),
+    "overload": prof(K=4, depth=2, ns=True, ovl=True, nv=1, maxpar=0, sigs=SIGS, argt=ARGT),
+}
+PROFILES_THOROUGH = {
+    "blocks":   prof(K=6, depth=4, loop=True, init=True, nv=2),
+    "class":    prof(K=5, depth=3, cls=True, late=True, nv=2, init=True, loop=True),
+    "lambda":   prof(K=5, depth=3, lam=True, init=True, nv=2),
+    "ns":       prof(K=6, depth=3, ns=True, qual=True, nv=2, init=True),
     "overload": prof(K=5, depth=2, ns=True, ovl=True, nv=1, maxpar=0, sigs=SIGS, argt=ARGT),
     "all":      prof(K=4, depth=3, ns=True, cls=True, lam=True, ovl=True, loop=True, qual=True, init=True, late=True, nv=2),
 }
-PROFILES_THOROUGH = {
-    "blocks":   prof(K=7, depth=4, loop=True, init=True, nv=2),
-    "class":    prof(K=6, depth=3, cls=True, late=True, nv=2, init=True, loop=True),
-    "lambda":   prof(K=6, depth=3, lam=True, init=True, nv=2),
-    "ns":       prof(K=6, depth=3, ns=True, qual=True, nv=2, init=True),
-    "overload": prof(K=6, depth=2, ns=True, ovl=True, nv=1, maxpar=0, sigs=SIGS, argt=ARGT),
-    "all":      prof(K=5, depth=3, ns=True, cls=True, lam=True, ovl=True, loop=True, qual=True, init=True, late=True, nv=2),
+# deeper programs, sampled by TLC's simulator (seeded)
+SIM = {
+    "sim-all":   prof(K=14, depth=5, ns=True, cls=True, lam=True, ovl=True, loop=True, qual=True, init=True, late=True, nv=3, maxpar=2,
+                      sigs=SIGS, argt=ARGT),
+    "sim-class": prof(K=12, depth=4, cls=True, loop=True, init=True, late=True, nv=2, maxpar=1),
+    "sim-block": prof(K=12, depth=5, loop=True, init=True, nv=3, maxpar=2),
 }
-SIM = prof(K=16, depth=5, ns=True, cls=True, lam=True, ovl=True, loop=True, qual=True, init=True, late=True, nv=3, maxpar=2,
-           sigs=SIGS, argt=ARGT)
+QUICK_CAP = 360          # programs evaluated per BFS profile in the quick tier (seeded sample of the enumerated set)
+SIBLINGS = 3             # the simulator evaluates Emit on every successor of the last step: keep this many per walk
 
 
 # ------------------------------------------------------------------------------------------------ generation (TLC)
-def tlc_generate(name, params, simulate=None, seed=1, workers=1, timeout=1500):
-    """Runs Scopes.tla; returns (programs, TLCResult). simulate = number of behaviours for -simulate, None = BFS."""
+def tlc_generate(profiles, simulate=None, seed=1, workers=1, timeout=3000):
+    """One run of Scopes.tla over a set of profiles {name: params}; returns (programs, TLCResult).
+    simulate = number of random walks (-simulate), None = exhaustive BFS."""
     work = vlib.mktmp("c08gen")
-    pf = os.path.join(work, "params.json")
+    pf = os.path.join(work, "params.ndjson")
     out = os.path.join(work, "progs.ndjson")
-    with open(pf, "w") as f:
-        json.dump(params, f)
+    rows = []
+    for name, params in profiles.items():
+        r = dict(params)
+        r["name"] = name
+        rows.append(r)
+    vlib.write_ndjson(pf, rows)
     extra = []
     if simulate:
-        extra = ["-simulate", "num=%d" % simulate, "-depth", str(4 * params["K"]), "-seed", str(seed)]
-    r = vlib.tlc("Scopes", "Scopes.cfg", env={"PARAMS": pf, "OUT": out, "JAVA_TOOL_OPTIONS": "-XX:ParallelGCThreads=2"}, workers=workers,
-                 timeout=timeout, extra=extra, xmx="6g")
+        depth = 4 * max(p["K"] for p in profiles.values())
+        extra = ["-simulate", "num=%d" % simulate, "-depth", str(depth), "-seed", str(seed)]
+    r = vlib.tlc("Scopes", "ScopesSim.cfg" if simulate else "Scopes.cfg",
+                 env={"PARAMS": pf, "OUT": out, "JAVA_TOOL_OPTIONS": "-XX:ParallelGCThreads=2 -XX:CICompilerCount=2"}, workers=workers,
+                 timeout=timeout, extra=extra, xmx="8g")
     if not r.ok:
-        raise vlib.InfraError("Scopes.tla (%s) failed rc=%s\n%s" % (name, r.rc, r.out[-3000:]))
+        raise vlib.InfraError("Scopes.tla (%s) failed rc=%s\n%s" % (",".join(profiles), r.rc, r.out[-3000:]))
     progs = []
     seen = set()
     for row in vlib.read_ndjson(out):
@@ -104,32 +118,51 @@ def tlc_generate(name, params, simulate=None, seed=1, workers=1, timeout=1500):
         if d in seen:
             continue
         seen.add(d)
-        row["profile"] = name
         row["key"] = d
         progs.append(row)
     shutil.rmtree(work, ignore_errors=True)
+    progs.sort(key=lambda x: x["key"])          # the order TLC's workers wrote the lines is not deterministic
     return progs, r
 
 
 def generate(tier, seed):
+    import random
     profiles = PROFILES_QUICK if tier == "quick" else PROFILES_THOROUGH
-    nsim = 400 if tier == "quick" else 20000
-    jobs = [(n, p, None) for n, p in profiles.items()] + [("sim", SIM, nsim)]
+    nsim = 45 if tier == "quick" else 6000
     stats = {}
+    with concurrent.futures.ThreadPoolExecutor(2) as ex:
+        f_bfs = ex.submit(tlc_generate, profiles, None, seed, TLC_WORKERS - 1)
+        f_sim = ex.submit(tlc_generate, SIM, nsim, seed, 1)
+        bfs, rb = f_bfs.result()
+        sim, rs = f_sim.result()
+    rnd = random.Random(seed)
     progs = []
-    # the profiles are independent TLC runs: run them side by side with one worker each (at most TLC_WORKERS JVMs)
-    with concurrent.futures.ThreadPoolExecutor(TLC_WORKERS) as ex:
-        futs = {n: ex.submit(tlc_generate, n, p, sim, seed) for n, p, sim in jobs}
-        for n, fu in futs.items():
-            ps, r = fu.result()
-            stats[n] = {"programs": len(ps), "states_generated": r.generated, "distinct_states": r.distinct, "wall_s": round(r.wall, 1),
-                        "exhaustive": n != "sim"}
-            progs += ps
-    # the same program can be reached in several profiles
+    for name in profiles:
+        mine = [p for p in bfs if p["profile"] == name]
+        stats[name] = {"enumerated": len(mine), "exhaustive_enumeration": True}
+        if tier == "quick" and len(mine) > QUICK_CAP:
+            mine = rnd.sample(mine, QUICK_CAP)
+        stats[name]["programs"] = len(mine)
+        progs += mine
+    # simulation: the programs emitted at the last step of one walk differ only in their last item; keep a few per walk
+    for name in SIM:
+        groups = {}
+        for p in sim:
+            if p["profile"] == name:
+                groups.setdefault(vlib.digest(p["prog"][:-1] if p["prog"][-1]["op"] != "close" else
+                                              [it for it in p["prog"] if it["op"] != "close"][:-1]), []).append(p)
+        mine = []
+        for g in sorted(groups):
+            sib = groups[g]
+            mine += sib if len(sib) <= SIBLINGS else rnd.sample(sib, SIBLINGS)
+        stats[name] = {"walks": len(groups), "emitted": sum(len(v) for v in groups.values()), "programs": len(mine), "exhaustive_enumeration": False}
+        progs += mine
+    tl = {"bfs_states_generated": rb.generated, "bfs_distinct_states": rb.distinct, "bfs_wall_s": round(rb.wall, 1), "sim_wall_s": round(rs.wall, 1),
+          "sim_walks_requested": nsim, "seed": seed}
     uniq = {}
     for p in progs:
         uniq.setdefault(p["key"], p)
-    return list(uniq.values()), stats
+    return list(uniq.values()), stats, tl
 
 
 # ------------------------------------------------------------------------------------------------ run cppcheck + clang
@@ -274,7 +307,7 @@ def main(tier, seed, replay=None):
     vlib.build()
     if replay:
         return do_replay(replay)
-    progs, gstats = generate(tier, seed)
+    progs, gstats, gtl = generate(tier, seed)
     t_gen = time.time() - t0
     rows, rejected, failures, nunits = observe_all(progs)
     t_obs = time.time() - t0 - t_gen
@@ -328,13 +361,13 @@ def main(tier, seed, replay=None):
                 "distinct behaviours of Scopes.tla (digest of the item list); non-trivial = the program declares some name at least twice "
                 "(shadowing / same name in different scopes) or calls the overloaded function",
         "samples": samples, "exhaustive": False,
-        "profiles": gstats, "programs": len(progs), "translation_units": nunits,
+        "profiles": gstats, "tlc_generation": gtl, "programs": len(progs), "translation_units": nunits,
         "name_tokens": tokens, "tokens_with_variable_link": linked_var, "tokens_with_varid": linked_id, "tokens_with_function_link": linked_fun,
         "model_disagreement": len(model), "clang_rejected_programs": len(rejected),
         "model_disagreement_samples": [{"name": b["name"], "items": b["items"][:2]} for b in model[:3]],
         "clang_rejected_samples": [{"err": r["err"][:300], "text": r["text"][:600]} for r in rejected[:3]],
         "violating_programs": len(viol), "violation_classes": len(classes), "known_findings": known,
-        "states": sum(s["distinct_states"] for s in gstats.values()), "transitions": sum(s["states_generated"] for s in gstats.values()),
+        "states": gtl["bfs_distinct_states"], "transitions": gtl["bfs_states_generated"],
         "wall_generate_s": round(t_gen, 1), "wall_observe_s": round(t_obs, 1),
     }
     vlib.write_evidence(PID, tier, seed, "exploration", cov, time.time() - t0, violations=new,
